@@ -4,7 +4,7 @@
    specification: Spec/XsdPrims.v (written from XSD 1.1 part 2, imports no table). *)
 From Coq Require Import NArith ZArith List Bool Sorting.Permutation Sorting.Sorted.
 From XV Require Import Base.Str Base.Dec Base.PyInt Gen.ConvTables
-  Model.ConvBool Model.ConvInt Model.ConvBytes Model.ConvFactory Model.ConvAll Spec.XsdPrims
+  Model.ConvBool Model.ConvInt Model.ConvBytes Model.ConvFactory Model.ConvGuards Spec.XsdPrims
   Proofs.ConvBool Proofs.ConvInt Proofs.ConvBytes Proofs.ConvFactory.
 Import ListNotations.
 
